@@ -110,19 +110,22 @@ class TimeBudget(Exception):
 
 
 def cpu_budget(seconds: float):
-    """Context manager: raise TimeBudget inside the block after `seconds` of wall time."""
+    """Context manager: raise TimeBudget inside the block after `seconds` of CPU time of this process (user + system).
+
+    CPU time, not wall time: a machine busy with other work must not turn into a time-out (the property is about the
+    work a render does, and nothing in the library sleeps)."""
 
     class _B:
         def __enter__(self_inner):
             def _h(signum, frame):
                 raise TimeBudget()
 
-            self_inner.old = signal.signal(signal.SIGALRM, _h)
-            signal.setitimer(signal.ITIMER_REAL, seconds)
+            self_inner.old = signal.signal(signal.SIGPROF, _h)
+            signal.setitimer(signal.ITIMER_PROF, seconds)
 
         def __exit__(self_inner, *exc):
-            signal.setitimer(signal.ITIMER_REAL, 0)
-            signal.signal(signal.SIGALRM, self_inner.old)
+            signal.setitimer(signal.ITIMER_PROF, 0)
+            signal.signal(signal.SIGPROF, self_inner.old)
             return False
 
     return _B()
